@@ -101,9 +101,48 @@ func c20child(args []string) {
 			}
 		}
 	}
-	if err := log.Refresh(cfg); err != nil {
+	// "*-literal" kinds: the same plugins built as struct literals and started by hand (no configuration map, no injected
+	// defaults): write-through does not depend on how the objects were constructed
+	var direct log.Logger
+	if strings.HasSuffix(kind, "-literal") {
+		mkLayout := func() log.Layout {
+			if lt == "JSONLayout" {
+				return &log.JSONLayout{BaseLayout: log.BaseLayout{FileLineLength: 48}}
+			}
+			return &log.TextLayout{BaseLayout: log.BaseLayout{FileLineLength: 48}}
+		}
+		all := log.LevelRange{MinLevel: log.NoneLevel, MaxLevel: log.MaxLevel}
+		var err error
+		switch kind {
+		case "file-literal":
+			fa := &log.FileAppender{AppenderBase: log.AppenderBase{Name: "f"}, Layout: mkLayout(), FileDir: dir, FileName: "t.log"}
+			err = fa.Start()
+			direct = &log.SyncLogger{LoggerBase: log.LoggerBase{Name: "lg", Level: all}, AppenderRefs: log.AppenderRefs{AppenderRefs: []*log.AppenderRef{{Appender: fa, Ref: "f", Level: all}}}}
+		case "filelogger-literal":
+			fl := &log.FileLogger{LoggerBase: log.LoggerBase{Name: "lg", Level: all}, FileAppender: log.FileAppender{AppenderBase: log.AppenderBase{Name: "lg"}, Layout: mkLayout(), FileDir: dir, FileName: "t.log"}}
+			err = fl.Start()
+			direct = fl
+		case "rolling-literal":
+			ra := &log.RollingFileAppender{AppenderBase: log.AppenderBase{Name: "f"}, Layout: mkLayout(), FileDir: dir, FileName: "t.log", Rotation: log.TimeRotation{Interval: time.Second}, MaxAge: 24}
+			err = ra.Start()
+			direct = &log.SyncLogger{LoggerBase: log.LoggerBase{Name: "lg", Level: all}, AppenderRefs: log.AppenderRefs{AppenderRefs: []*log.AppenderRef{{Appender: ra, Ref: "f", Level: all}}}}
+		}
+		if err == nil && direct != nil {
+			err = direct.Start()
+		}
+		if err != nil || direct == nil {
+			fmt.Fprintln(os.Stderr, "child start failed:", err)
+			os.Exit(7)
+		}
+	} else if err := log.Refresh(cfg); err != nil {
 		fmt.Fprintln(os.Stderr, "child refresh failed:", err)
 		os.Exit(7)
+	}
+	emit := func(level log.Level, fields ...log.Field) {
+		e := log.GetEvent()
+		e.Level, e.Time, e.Tag, e.File, e.Line = level, time.Now(), "c20tag", "c20.go", 1
+		e.Fields = fields
+		direct.Append(e)
 	}
 	ctx := context.Background()
 	var mu sync.Mutex
@@ -129,10 +168,16 @@ func c20child(args []string) {
 				if isBig {
 					inBig.Store(true)
 				}
-				switch i % 3 {
-				case 0:
+				switch {
+				case direct != nil && i%3 == 0:
+					emit(log.InfoLevel, log.Msg(id), log.String("p", pad), log.String("z", "END"))
+				case direct != nil && i%3 == 1:
+					emit(log.ErrorLevel, log.Msg(id+" z=END"))
+				case direct != nil:
+					emit(log.WarnLevel, log.Msg(id), log.Int("n", i), log.String("z", "END"))
+				case i%3 == 0:
 					log.Info(ctx, tag, log.Msg(id), log.String("p", pad), log.String("z", "END"))
-				case 1:
+				case i%3 == 1:
 					log.Errorf(ctx, tag, "%s z=END", id)
 				default:
 					log.Warn(ctx, tag, log.Msg(id), log.Int("n", i), log.String("z", "END"))
@@ -350,7 +395,7 @@ func c20one(w *W, kind, layout string, G, N, k int, mode string, idx int) {
 }
 
 func c20Worker(w *W) {
-	kinds := []string{"file", "rolling", "console", "loggerlayout-file", "filelogger", "rollinglogger", "consolelogger", "loggerlayout-2files", "2files", "shared-file"}
+	kinds := []string{"file", "rolling", "console", "loggerlayout-file", "filelogger", "rollinglogger", "consolelogger", "loggerlayout-2files", "2files", "shared-file", "file-literal", "filelogger-literal", "rolling-literal"}
 	layouts := []string{"text", "json"}
 	idx := 0
 	N := 40
